@@ -198,6 +198,17 @@ var staleKinds = []struct {
 	{"held-5e5", []uint64{BW / 2}, 6},
 }
 
+// staleSpecials returns ±0 and ±Inf in every non-trivial history (variables that held a finite value before).
+func staleSpecials(prec uint32, mode uint8) []*Opnd {
+	var out []*Opnd
+	for k := 1; k < len(staleKinds); k++ {
+		for _, f := range []int8{fZero, fInf} {
+			out = append(out, mkSpecial(f, k%2 == 0, prec, mode).withStale(int8(k)), mkSpecial(f, k%2 == 1, prec, mode).withStale(int8(k)))
+		}
+	}
+	return out
+}
+
 // withStale returns a copy of the special operand a with the given history.
 func (a *Opnd) withStale(k int8) *Opnd {
 	if a.Form == fFinite {
